@@ -205,6 +205,13 @@ func (s *Server) newPartition(protoPartition *proto.Partition, recovered bool, c
 		return nil, errors.Wrap(err, "failed to create commit log")
 	}
 
+	// The readonly flag lives on the commit log, which was just (re)created,
+	// e.g. when restoring a snapshot or resuming a paused partition. Carry the
+	// flag over from the protobuf so a readonly partition stays readonly.
+	if protoPartition.Readonly {
+		log.SetReadonly(true)
+	}
+
 	replicas := make(map[string]struct{}, len(protoPartition.Replicas))
 	for _, replica := range protoPartition.Replicas {
 		replicas[replica] = struct{}{}
